@@ -23,6 +23,8 @@ def activate():
     if _done:
         return
     _done = True
+    import logging
+    logging.disable(logging.CRITICAL)   # the library warns about every defaulted option
     if os.path.isdir(DEPS) and DEPS not in sys.path:
         sys.path.append(DEPS)
     if "atsim.potentials" in sys.modules:
